@@ -3,7 +3,7 @@
 name=$1; shift
 cd /verif
 if ! git -C /repo diff --quiet; then echo "refusing: /repo has uncommitted changes"; exit 2; fi
-git -C /repo apply /verif/seeded/$name/patch.diff || { echo "patch does not apply"; exit 2; }
+git -C /repo apply --ignore-whitespace /verif/seeded/$name/patch.diff || { echo "patch does not apply"; exit 2; }
 mkdir -p /verif/sim/target/seeded_replays
 res=/verif/seeded/$name/result.txt
 : > $res
